@@ -246,6 +246,8 @@ pub struct PropDef {
     /// post-processing applied to generated cases (planting matches etc.)
     pub adjust: fn(Case) -> Case,
     pub assumptions: &'static [&'static str],
+    /// tiny configurations whose schedules are enumerated exhaustively in the thorough tier (explicit-tape policy)
+    pub tiny: fn() -> Vec<Case>,
 }
 
 pub fn no_dense(_thorough: bool, _seed: u64) -> Vec<Case> {
@@ -253,6 +255,47 @@ pub fn no_dense(_thorough: bool, _seed: u64) -> Vec<Case> {
 }
 pub fn no_adjust(c: Case) -> Case {
     c
+}
+pub fn no_tiny() -> Vec<Case> {
+    vec![]
+}
+
+/// tiny parallel configurations: <= 3 workers, <= 4 elements, chunk sizes 1..2, explicit (enumerable) schedule
+pub fn tiny_cases(terms: &[Term], chains: &[&[StageKind]], inputs: &[&[u32]]) -> Vec<Case> {
+    let mut out = vec![];
+    for term in terms {
+        for kinds in chains {
+            for input in inputs {
+                for (t, c) in [(2usize, 1usize), (2, 2), (3, 1)] {
+                    for source in [Source::VecOwned, Source::Iter { hint: Hint::Zero }] {
+                        out.push(Case {
+                            source,
+                            input: input.to_vec(),
+                            chain: kinds
+                                .iter()
+                                .enumerate()
+                                .map(|(i, k)| Stage {
+                                    kind: *k,
+                                    k: 5 + i as u32,
+                                    mask: 0xfffe,
+                                    fan: 2,
+                                })
+                                .collect(),
+                            params: vec![p_threads(0, t), p_chunk(0, Cs::Exact(c))],
+                            term: term.clone(),
+                            mode: Mode::Sched(crate::sched::Schedule {
+                                policy: crate::sched::Policy::Explicit,
+                                tape: vec![],
+                                weights: vec![1; 18],
+                            }),
+                            faults: vec![],
+                        });
+                    }
+                }
+            }
+        }
+    }
+    out
 }
 
 pub fn all() -> Vec<PropDef> {
